@@ -1,13 +1,12 @@
 /-
   Handlers/HC18.lean — driver request of property C18 (hierarchical on_final):
 
-    c18 <variant> <defs> <machine cbs> <roots> <E>
-        variant  0 = code as it is, 1 = C18_1.diff applied, 2 = C18_2.diff applied, 3 = both
+    c18 <defs> <machine cbs> <roots> <E>
         defs     list of (id, final, on_final callback ids)
         roots    list of trees; tree = id, list of trees        (the OBSERVED configuration)
         E        list of ids                                    (the OBSERVED entered set)
-      → `S <owners> <callbacks> C <0 owners callbacks | 1> W <enteredWF> <noLeak> <noCompound> <nodup ids>`
-        S = the specification `Final.expected` (monitor), C = the model of `_final_check` (variant),
+      → `S <owners> <callbacks> C <0 owners callbacks | 1> W <enteredWF> <nodup ids>`
+        S = the specification `Final.expected` (monitor), C = the model of `_final_check`,
         owners: 0 = machine, id+1 = state; lists length-prefixed.
 -/
 import Handlers.Basic
@@ -51,24 +50,16 @@ def nodupNats : List Nat → Bool
   | a :: r => !r.contains a && nodupNats r
 
 def request : P String := do
-  let vn ← nat
   let ds ← list sdef
   let mcbs ← nats
   let roots ← list (tree 64)
   let E ← nats
   let D := mkDefs ds mcbs
-  let v : Variant := ⟨vn % 2 = 1, vn / 2 % 2 = 1⟩
   let sp := expected D E roots
-  let code := match finalCheckRootV v D E roots with
+  let c := match finalCheckRoot D E roots with
     | .ok os => 0 :: (encNats (os.map encOwner) ++ encNats (runCalls D os))
     | .attributeError => [1]
-  let code0 := match finalCheckRoot D E roots with
-    | .ok os => 0 :: (encNats (os.map encOwner) ++ encNats (runCalls D os))
-    | .attributeError => [1]
-  -- variant 0 is answered by the plain transcription `finalCheckRoot` (equal to `finalCheckRootV asIs`
-  -- by theorem `finalCheckRootV_asis`)
-  let c := if vn = 0 then code0 else code
-  let w := [encB (enteredWF E roots), encB (noLeakL D roots), encB (noCompoundL D E roots), encB (nodupNats (idsL roots))]
+  let w := [encB (enteredWF E roots), encB (nodupNats (idsL roots))]
   pure s!"S {joinNats (encNats (sp.map encOwner) ++ encNats (runCalls D sp))} C {joinNats c} W {joinNats w}"
 
 end C18
